@@ -160,6 +160,7 @@ let spec (at : types) (a : kind) (bt : types) (b : kind) : string =
 let tagA = n_of_int 1 and tagB = n_of_int 2
 
 let handle = function
+  | ["flag"] -> "psl_default_normalised=" ^ show_bool psl_default_normalised
   | ["pair"; pa; ka; pb; kb] ->
     let at = build tagA pa and bt = build tagB pb in
     let a = kind tagA ka and b = kind tagB kb in
